@@ -269,3 +269,130 @@ func TestC20Concurrent(t *testing.T) {
 		}
 	}
 }
+
+// ---------------- C03 / C05: partitions under churn - tokens are charged to and released from the right bins while partitions are added
+// and removed and the limit moves; a partition added while the limit changes gets the share of the limit in force ----------------
+func TestC03Stress(t *testing.T) {
+	rep := NewReport("C03stress")
+	defer rep.Write(t)
+	dur := time.Duration(Scale(400, 4000)) * time.Millisecond
+	for kind := 3; kind <= 4; kind++ {
+		reg := newSyncRegistry()
+		keys := []string{"a", "b"}
+		pcts := []float64{0.5, 0.3}
+		var st core.Strategy
+		var total func() int
+		var limitOf func() int
+		var binBusy func(i int) int
+		var addC func() (func() int, bool) // adds partition "c" (20%), returns a reader of its limit
+		var removeC func()
+		ctxOf := func(k string) context.Context {
+			if kind == 3 {
+				return context.WithValue(context.Background(), matchers.LookupPartitionContextKey, k)
+			}
+			return context.WithValue(context.Background(), matchers.StringPredicateContextKey, k)
+		}
+		if kind == 3 {
+			parts := map[string]*strategy.LookupPartition{}
+			for i, k := range keys {
+				parts[k] = strategy.NewLookupPartitionWithMetricRegistry(k, pcts[i], 1, reg)
+			}
+			s, err := strategy.NewLookupPartitionStrategyWithMetricRegistry(parts, nil, 6, reg)
+			if err != nil {
+				t.Fatal(err)
+			}
+			st, total, limitOf = s, s.BusyCount, s.Limit
+			binBusy = func(i int) int { v, _ := s.BinBusyCount(keys[i]); return v }
+			addC = func() (func() int, bool) {
+				ok := s.AddPartition("c", strategy.NewLookupPartitionWithMetricRegistry("c", 0.2, 1, reg))
+				return func() int { v, _ := s.BinLimit("c"); return v }, ok
+			}
+			removeC = func() { s.RemovePartition("c") }
+		} else {
+			var parts []*strategy.PredicatePartition
+			for i, k := range keys {
+				parts = append(parts, strategy.NewPredicatePartitionWithMetricRegistry(k, pcts[i], matchers.StringPredicateMatcher(k, false), reg))
+			}
+			s, err := strategy.NewPredicatePartitionStrategyWithMetricRegistry(parts, 6, reg)
+			if err != nil {
+				t.Fatal(err)
+			}
+			st, total, limitOf = s, s.BusyCount, s.Limit
+			binBusy = func(i int) int { v, _ := s.BinBusyCount(i); return v }
+			addC = func() (func() int, bool) {
+				p := strategy.NewPredicatePartitionWithMetricRegistry("c", 0.2, matchers.StringPredicateMatcher("c", false), reg)
+				ok := s.AddPartition(p)
+				return func() int { return p.Limit() }, ok
+			}
+			removeC = func() { s.RemovePartitionsMatching(ctxOf("c")) }
+		}
+		stop := make(chan struct{})
+		var wg sync.WaitGroup
+		var ops int64
+		for g := 0; g < 6; g++ {
+			wg.Add(1)
+			go func(g int) {
+				defer wg.Done()
+				ks := []string{"a", "b", "c", "zz"}
+				for i := g; ; i++ {
+					select {
+					case <-stop:
+						return
+					default:
+					}
+					if tok, ok := st.TryAcquire(ctxOf(ks[i%4])); ok {
+						runtime.Gosched()
+						tok.Release()
+					}
+					atomic.AddInt64(&ops, 1)
+				}
+			}(g)
+		}
+		// the limit only ever grows (so that two equal reads of it bracket a period in which it did not change)
+		wg.Add(1)
+		go func() {
+			defer wg.Done()
+			for v := 6; ; v++ {
+				select {
+				case <-stop:
+					return
+				default:
+				}
+				st.SetLimit(v)
+				time.Sleep(20 * time.Microsecond)
+			}
+		}()
+		bad := ""
+		end := time.Now().Add(dur / 4)
+		for time.Now().Before(end) && bad == "" {
+			read, ok := addC()
+			if ok {
+				l1 := limitOf()
+				b := read()
+				l2 := limitOf()
+				if l1 == l2 && b != int(shareOf(int64(l1), 0.2)) {
+					bad = fmt.Sprintf("a 20%% partition added while the limit was moving has limit %d with the total at %d (share %d)", b, l1, shareOf(int64(l1), 0.2))
+				}
+			}
+			runtime.Gosched()
+			removeC()
+		}
+		close(stop)
+		wg.Wait()
+		rep.Evaluations += int(ops)
+		rep.Distinct("partition-churn", fmt.Sprint(kind))
+		name := stratNames[kind]
+		if bad != "" {
+			rep.Violate(name+":stale-share-on-add", bad, map[string]interface{}{"component": "strategy-stress", "kind": kind})
+		}
+		// quiescent: every token has been released
+		if n := total(); n != 0 {
+			rep.Violate(name+":stress-busy-not-zero", fmt.Sprintf("all tokens released, the strategy still counts %d in flight", n), map[string]interface{}{"component": "strategy-stress", "kind": kind})
+		}
+		for i := range keys {
+			if n := binBusy(i); n != 0 {
+				rep.Violate(name+":stress-bin-not-zero", fmt.Sprintf("all tokens released, partition %q still counts %d in flight", keys[i], n), map[string]interface{}{"component": "strategy-stress", "kind": kind})
+			}
+		}
+	}
+}
